@@ -91,6 +91,38 @@ func split(o *Obs) (pre, in, post []string) {
 	return o.Log[:start], o.Log[start+1 : end], o.Log[end+1:]
 }
 
+// ctxEnd is the position in the log at which the caller's context ended (-1: it never did).
+func ctxEnd(log []string) int {
+	for i, op := range log {
+		if op == "ctx!" {
+			return i
+		}
+	}
+	return -1
+}
+
+func firstIndex(log []string, what string) int {
+	for i, op := range log {
+		if op == what {
+			return i
+		}
+	}
+	return -1
+}
+
+// ctxWhere names the point at which the context ended, for cause keys.
+func ctxWhere(c Case) string {
+	switch c.CtxAt {
+	case "open":
+		return "ctx-ended-while-connecting"
+	case "begin":
+		return "ctx-ended-during-begin"
+	case "pool":
+		return "ctx-ended-while-waiting-for-connection"
+	}
+	return "ctx-ended-before-body"
+}
+
 func hasNested(c Case) bool {
 	for _, k := range c.Kinds {
 		if k == "nested" {
@@ -137,7 +169,8 @@ func checkProtocol(c Case, o *Obs, returned bool) []verdict {
 		if returned && o.Err == nil {
 			return one("nil-error-without-begin", "nil returned although no transaction was begun (so none was committed)")
 		}
-		if c.Begin == "ok" && c.Ctx != "pre" {
+		// ... or the context ended before any Begin was sent (while connecting, while waiting for a connection)
+		if c.Begin == "ok" && c.Ctx != "pre" && ctxEnd(o.Log) < 0 {
 			return one("no-begin", "no transaction begun although a connection was available and the context was live")
 		}
 		return nil
@@ -158,20 +191,68 @@ func checkProtocol(c Case, o *Obs, returned bool) []verdict {
 		return nil
 	}
 	// the transaction is open
+	ce := ctxEnd(o.Log)
 	if o.BodyRuns == 0 {
-		return one("body-not-run", "a transaction was begun but the body was never run")
+		if ce < 0 {
+			return one("body-not-run", "a transaction was begun but the body was never run")
+		}
+		// The context ended before the body could start. The statement does not say that the body
+		// must still be run then; it does say that the transaction that was begun is ended exactly
+		// once, that it is committed only if the body returned nil (it did not), and that nil is
+		// returned only after a successful commit.
+		where := ctxWhere(c)
+		t := filterSig(o.Log[firstIndex(o.Log, "begin")+1:])
+		switch {
+		case len(t) == 0:
+			return one("not-terminated:"+where, "a transaction was begun, the body was not run, and neither Commit nor Rollback followed (%s)", where)
+		case t[0] == "commit":
+			return one("commit-without-body:"+where, "committed although the body never ran (%s)", where)
+		case t[0] != "rollback":
+			return one("statement-without-body", "%s issued although the body never ran", t[0])
+		case len(t) > 1 && isEnd(t[1]):
+			return one("terminated-twice:"+where, "transaction ended more than once: %v", t)
+		case len(t) > 1:
+			return one("ops-after-termination", "driver calls after %s: %v", t[0], t[1:])
+		}
+		if o.InUse != 0 {
+			return one("conn-not-released", "%d connection(s) still held by the transaction after Transact returned", o.InUse)
+		}
+		if returned && o.Err == nil {
+			return one("nil-error-without-body:"+where, "nil returned although the body never ran and nothing was committed (%s)", where)
+		}
+		if returned && o.HitRollback && !reports(o.Err, o.RollbackErr) {
+			return one("rollback-error-not-reported:"+where, "Rollback failed with %q but the returned error %q does not carry it", o.RollbackErr, o.Err.Error())
+		}
+		return nil
 	}
 	if sp := filterSig(pre); len(sp) > 1 {
 		return one("ops-before-body", "driver calls between Begin and the body: %v", sp[1:])
 	}
+	// A Rollback that arrives while the body is still running is tolerated once the caller's
+	// context has ended (database/sql rolls a context-bound transaction back by itself): it then is
+	// THE termination, and the body cannot count as committed.
+	early := false
 	if !hasNested(c) {
-		for _, op := range in {
+		bodyStart := firstIndex(o.Log, "body{")
+		for i, op := range in {
 			if op == "begin" || isEnd(op) {
+				if op == "rollback" && !early && ce >= 0 && ce < bodyStart+1+i {
+					early = true
+					continue
+				}
 				return one("termination-inside-body", "%s issued while the body was still running", op)
 			}
 		}
 	}
 	t := filterSig(post)
+	if early {
+		for _, op := range t {
+			if isEnd(op) {
+				return one("terminated-twice:"+tag, "transaction rolled back when the context ended and ended again after %s: %v", tag, t)
+			}
+		}
+		t = []string{"rollback"}
+	}
 	if len(t) == 0 {
 		return one("not-terminated:"+tag, "neither Commit nor Rollback after the body ended (%s)", tag)
 	}
@@ -214,21 +295,21 @@ func checkProtocol(c Case, o *Obs, returned bool) []verdict {
 	if o.Err != nil && commitOK {
 		return one("error-after-successful-commit", "error %q returned although the body returned nil and Commit succeeded", o.Err.Error())
 	}
-	if o.HitCommit && !reports(o.Err, errCommit) {
-		return one("commit-error-not-reported", "Commit failed with %q but the returned error %q does not carry it", errCommit, o.Err.Error())
+	if o.HitCommit && !reports(o.Err, o.CommitErr) {
+		return one("commit-error-not-reported", "Commit failed with %q but the returned error %q does not carry it", o.CommitErr, o.Err.Error())
 	}
 	// "ends it exactly once": database/sql hides a second Commit/Rollback from the driver (it answers
 	// sql.ErrTxDone itself), so a termination attempted twice shows only as that error leaking into
 	// the returned error — reported as a rollback failure that never happened
 	if o.HitCommit && !o.HitRollback && errors.Is(o.Err, sql.ErrTxDone) {
-		return one("terminated-twice:rollback-after-failed-commit", "Commit failed with %q and a second termination was attempted: the returned error %q carries sql.ErrTxDone", errCommit, o.Err.Error())
+		return one("terminated-twice:rollback-after-failed-commit", "Commit failed with %q and a second termination was attempted: the returned error %q carries sql.ErrTxDone", o.CommitErr, o.Err.Error())
 	}
-	if o.HitRollback && !reports(o.Err, errRollback) {
+	if o.HitRollback && !reports(o.Err, o.RollbackErr) {
 		k := "body-error"
 		if o.BodyOutcome == "panic" {
 			k = "panic"
 		}
-		return one("rollback-error-not-reported:"+k, "Rollback failed with %q but the returned error %q does not carry it", errRollback, o.Err.Error())
+		return one("rollback-error-not-reported:"+k, "Rollback failed with %q but the returned error %q does not carry it", o.RollbackErr, o.Err.Error())
 	}
 	return nil
 }
@@ -270,6 +351,9 @@ func expectation(c Case, o *Obs) string {
 		return "Begin failed: body not run, nothing else sent to the driver, non-nil error"
 	}
 	tag := bodyTag(c, o)
+	if o.BodyRuns == 0 && ctxEnd(o.Log) >= 0 {
+		return "a transaction was begun and the caller's context ended before the body could start (" + ctxWhere(c) + "): the body need not run, but the transaction must be ended exactly once, by Rollback, and a non-nil error returned"
+	}
 	if tag == "success" {
 		return "body returned nil: exactly one Commit after the body and nothing after it; returned error nil iff Commit succeeded, otherwise it carries the commit error"
 	}
